@@ -271,20 +271,27 @@ func (b *c03Builder) shutdown(confirmPct int) {
 	if w.cons == 0 && len(w.hold) > 0 {
 		return // cannot report without a consumer registration
 	}
+	// (every loop ends when an operation is not applicable: on a broken implementation the world may refuse it for ever)
 	for len(w.hold) > 0 {
 		i := int64(b.r.Intn(len(w.hold)))
 		if b.r.Intn(100) < confirmPct {
-			b.try(bufOp{opConsumed, i, 0, 0})
+			if !b.try(bufOp{opConsumed, i, 0, 0}) {
+				return
+			}
 		} else {
 			ws := int64(0)
 			if b.r.Chance(1, 10) {
 				ws = int64(1 + b.r.Intn(2))
 			}
-			b.try(bufOp{opLeftover, i, 0, ws})
+			if !b.try(bufOp{opLeftover, i, 0, ws}) {
+				return
+			}
 		}
 	}
 	for w.cons > 0 {
-		b.try(bufOp{opFinish, 0, 0, 0})
+		if !b.try(bufOp{opFinish, 0, 0, 0}) {
+			return
+		}
 	}
 }
 
